@@ -12,7 +12,7 @@ Definition w_inv (M P : N) (w : warrior) : Prop :=
   | WAlive => exists q, w_pq w = Some q /\ rq_wf q /\ q_size q = P /\ 0 < q_len q /\
                         Forall (fun x => x < M) (rq_values q)
   | WDead => exists q, w_pq w = Some q /\ rq_wf q /\ q_size q = P /\ q_len q = 0
-  | WAdded => w_pq w = None
+  | WAdded => True        (* after Reset the old queue object is still attached *)
   end.
 
 Definition Inv (s : sim) : Prop :=
@@ -27,11 +27,14 @@ Definition queue_ok (M P : N) (w : warrior) : Prop :=
   N.of_nat (length (w_queue w)) <= P /\ Forall (fun x => x < M) (w_queue w) /\
   (alive w = true <-> w_queue w <> []).
 
-Lemma w_inv_queue_ok M P w : w_inv M P w -> queue_ok M P w.
+(* no warrior is in the window between Reset and its re-spawn *)
+Definition fresh_w (w : warrior) : Prop := w_state w = WAdded -> w_pq w = None.
+
+Lemma w_inv_queue_ok M P w : w_inv M P w -> fresh_w w -> queue_ok M P w.
 Proof.
-  unfold w_inv, queue_ok, w_queue, alive. intros [_ H].
+  unfold w_inv, queue_ok, w_queue, alive, fresh_w. intros [_ H] Hf.
   destruct (w_state w).
-  - rewrite H. cbn. split; [lia|]. split; [constructor|]. split; [discriminate|congruence].
+  - rewrite (Hf eq_refl). cbn. split; [lia|]. split; [constructor|]. split; [discriminate|congruence].
   - destruct H as (q & -> & Hq & Hs & Hl & Hv).
     rewrite rq_values_length. destruct Hq as (? & ? & ? & ?).
     split; [lia|]. split; [assumption|]. split; [|reflexivity].
@@ -89,7 +92,7 @@ Lemma add_warrior_inv s code start :
 Proof.
   intros (A & B & C & D & E & F & G) Hcode. unfold Inv, add_warrior. cbn.
   do 4 (split; [assumption|]). split; [|split; [|assumption]].
-  - apply Forall_app. split; [assumption|]. constructor; [|constructor]. split; [assumption|reflexivity].
+  - apply Forall_app. split; [assumption|]. constructor; [|constructor]. split; [assumption|exact I].
   - unfold alive_count. rewrite filter_app, app_length. cbn. unfold alive_count in F. lia.
 Qed.
 
@@ -208,6 +211,51 @@ Proof.
     destruct IH as (I1 & I2 & I3 & I4). split; [exact I1|]. split; [rewrite I2; reflexivity|]. split; [rewrite I3; reflexivity|congruence].
 Qed.
 
+(* one iteration of the warrior loop, as facts: the popped program counter is an
+   address, and both possible successor states satisfy the invariant *)
+Lemma task_iteration s i w q :
+  Inv s -> nth_error (s_ws s) i = Some w -> w_state w = WAlive -> w_pq w = Some q ->
+  exists pc q1,
+    rq_pop q = Some (pc, q1) /\ pc < s_m s /\
+    let '(c', pushes, _) := exec (s_m s) (s_rl s) (s_wl s) (Z.of_nat i) (s_mem s) pc in
+    let q2 := fold_left rq_push pushes q1 in
+    (q_len q2 = 0 ->
+       Inv (with_living (set_w (with_mem s c') i (mkW (w_code w) (w_start w) WDead (Some q2))) (s_living s - 1)%Z)) /\
+    (q_len q2 <> 0 ->
+       Inv (set_w (with_mem s c') i (mkW (w_code w) (w_start w) WAlive (Some q2)))).
+Proof.
+  intros HI Hn Hst Hpq.
+  pose proof HI as (A & B & C & D & E & F & G).
+  pose proof (proj1 (Forall_forall _ _) E w (nth_error_In _ _ Hn)) as [Hcode Hw].
+  rewrite Hst in Hw. destruct Hw as (q' & Hpq' & Hq & Hs & Hl & Hv).
+  rewrite Hpq in Hpq'. inversion Hpq'; subst q'.
+  pose proof (rq_pop_spec q Hq) as Hpop.
+  destruct (rq_pop q) as [[pc q1]|] eqn:Hp.
+  2:{ unfold rq_pop in Hp. destruct (N.eqb_spec (q_len q) 0); [lia|discriminate]. }
+  destruct Hpop as (Hvals & Hq1 & Hs1).
+  rewrite Hvals in Hv. pose proof (Forall_inv Hv) as Hpc. pose proof (Forall_inv_tail Hv) as Hv1. cbv beta in Hpc.
+  exists pc, q1. split; [reflexivity|]. split; [assumption|].
+  assert (HM0 : 0 < s_m s) by lia.
+  pose proof (exec_inv (s_m s) (s_rl s) (s_wl s) (Z.of_nat i) HM0 (s_mem s) pc D Hpc) as EI.
+  destruct (exec (s_m s) (s_rl s) (s_wl s) (Z.of_nat i) (s_mem s) pc) as [[c' pushes] ereps].
+  destruct EI as [Hc' Hpush].
+  destruct (rq_pushes q1 pushes Hq1) as (Hq2 & Hs2 & Hv2).
+  cbv zeta. set (q2 := fold_left rq_push pushes q1) in *.
+  assert (Hv2' : Forall (fun x => x < s_m s) (rq_values q2))
+    by (rewrite Hv2; apply enq_Forall; assumption).
+  split; intros Hz.
+  - unfold Inv. cbn [s_m s_procs s_cycles s_mem s_ws s_living s_cycle set_w with_mem with_ws with_living].
+    do 4 (split; [assumption|]). split; [|split; [|assumption]].
+    + apply list_set_Forall; [assumption|]. split; [assumption|]. cbn [w_state w_pq].
+      exists q2. split; [reflexivity|]. split; [assumption|]. split; [congruence|assumption].
+    + rewrite (alive_count_set _ _ w _ Hn). unfold alive. rewrite Hst. cbn [w_state]. lia.
+  - unfold Inv. cbn [s_m s_procs s_cycles s_mem s_ws s_living s_cycle set_w with_mem with_ws with_living].
+    do 4 (split; [assumption|]). split; [|split; [|assumption]].
+    + apply list_set_Forall; [assumption|]. split; [assumption|]. cbn [w_state w_pq].
+      exists q2. split; [reflexivity|]. split; [assumption|]. split; [congruence|]. split; [lia|assumption].
+    + rewrite (alive_count_set _ _ w _ Hn). unfold alive. rewrite Hst. cbn [w_state]. lia.
+Qed.
+
 Theorem run_cycle_inv s :
   Inv s ->
   match run_cycle s with
@@ -262,42 +310,53 @@ Proof.
 Qed.
 
 (* the configuration part of the state never changes *)
+Definition same_cfg (s s' : sim) : Prop :=
+  s_m s' = s_m s /\ s_procs s' = s_procs s /\ s_cycles s' = s_cycles s /\
+  s_rl s' = s_rl s /\ s_wl s' = s_wl s.
+Lemma same_cfg_refl s : same_cfg s s.
+Proof. unfold same_cfg. auto. Qed.
+Lemma same_cfg_trans s1 s2 s3 : same_cfg s1 s2 -> same_cfg s2 s3 -> same_cfg s1 s3.
+Proof. unfold same_cfg. intros (A & B & C & D & E) (A' & B' & C' & D' & E'). repeat split; congruence. Qed.
+
+Ltac scfg := unfold same_cfg in *;
+  cbn [s_m s_procs s_cycles s_rl s_wl set_w with_mem with_ws with_living with_cycle] in *; auto.
+
 Lemma cycle_loop_m k : forall i s reps,
-  match cycle_loop k i s reps with Panic => True | Ok (s', _, _) => s_m s' = s_m s end.
+  match cycle_loop k i s reps with Panic => True | Ok (s', _, _) => same_cfg s s' end.
 Proof.
-  induction k as [|k IH]; intros i s reps; cbn [cycle_loop]; [reflexivity|].
-  destruct (nth_error (s_ws s) i) as [w|]; [|reflexivity].
+  induction k as [|k IH]; intros i s reps; cbn [cycle_loop]; [apply same_cfg_refl|].
+  destruct (nth_error (s_ws s) i) as [w|]; [|apply same_cfg_refl].
   destruct (w_state w); try apply IH.
   destruct (w_pq w) as [q|]; [|exact I].
   destruct (rq_pop q) as [[pc q1]|].
   2:{ match goal with |- context [cycle_loop k ?i ?s ?r] => specialize (IH i s r) end.
-      destruct (cycle_loop k _ _ _) as [[[? ?] ?]|]; auto. }
+      destruct (cycle_loop k _ _ _) as [[[? ?] ?]|]; scfg. }
   destruct (s_m s <=? pc); [exact I|].
   destruct (exec _ _ _ _ _ _) as [[c' pushes] ereps].
   destruct (q_len _ =? 0).
-  - destruct (_ && _)%bool; [reflexivity|].
+  - destruct (_ && _)%bool; [scfg|].
     match goal with |- context [cycle_loop k ?i ?s ?r] => specialize (IH i s r) end.
-    destruct (cycle_loop k _ _ _) as [[[? ?] ?]|]; auto.
+    destruct (cycle_loop k _ _ _) as [[[? ?] ?]|]; scfg.
   - match goal with |- context [cycle_loop k ?i ?s ?r] => specialize (IH i s r) end.
-    destruct (cycle_loop k _ _ _) as [[[? ?] ?]|]; auto.
+    destruct (cycle_loop k _ _ _) as [[[? ?] ?]|]; scfg.
 Qed.
 Lemma run_cycle_m s :
-  match run_cycle s with Panic => True | Ok (s', _, _) => s_m s' = s_m s end.
+  match run_cycle s with Panic => True | Ok (s', _, _) => same_cfg s s' end.
 Proof.
-  unfold run_cycle. destruct (_ || _)%bool; [reflexivity|]. destruct (_ && _)%bool; [reflexivity|].
+  unfold run_cycle. destruct (_ || _)%bool; [apply same_cfg_refl|]. destruct (_ && _)%bool; [apply same_cfg_refl|].
   pose proof (cycle_loop_m (length (s_ws s)) 0 s [mkR CycleStart (Z.of_N (s_cycle s)) 0 0]) as L.
-  destruct (cycle_loop _ _ _ _) as [[[s' [r|]] reps]|]; auto.
+  destruct (cycle_loop _ _ _ _) as [[[s' [r|]] reps]|]; scfg.
 Qed.
 Lemma run_loop_m fuel : forall s,
-  match run_loop fuel s with RunOk s' _ => s_m s' = s_m s | _ => True end.
+  match run_loop fuel s with RunOk s' _ => same_cfg s s' | _ => True end.
 Proof.
   induction fuel as [|f IH]; intros s; cbn [run_loop].
-  - destruct (s_cycles s <=? s_cycle s); auto.
-  - destruct (s_cycles s <=? s_cycle s); [auto|].
+  - destruct (s_cycles s <=? s_cycle s); [apply same_cfg_refl|exact I].
+  - destruct (s_cycles s <=? s_cycle s); [apply same_cfg_refl|].
     pose proof (run_cycle_m s) as R.
     destruct (run_cycle s) as [[[s' a] reps]|]; [|exact I].
     destruct (_ || _)%bool; [assumption|].
-    specialize (IH s'). destruct (run_loop f s'); auto. congruence.
+    specialize (IH s'). destruct (run_loop f s'); auto. eapply same_cfg_trans; eassumption.
 Qed.
 
 (* ---------- any sequence of battle operations ---------- *)
@@ -343,11 +402,11 @@ Proof.
     destruct (w_state w); auto.
   - pose proof (run_cycle_inv s HI) as R. pose proof (run_cycle_m s) as Rm.
     destruct (run_cycle s) as [[[s' r] reps]|]; [|assumption].
-    destruct R. auto.
+    destruct R. destruct Rm. auto.
   - pose proof (run_inv fuel s HI) as R.
-    assert (Rm : match run fuel s with RunOk s' _ => s_m s' = s_m s | _ => True end).
-    { unfold run. destruct (s_ws s); [reflexivity|]. apply run_loop_m. }
-    destruct (run fuel s); auto. destruct R. auto.
+    assert (Rm : match run fuel s with RunOk s' _ => same_cfg s s' | _ => True end).
+    { unfold run. destruct (s_ws s); [apply same_cfg_refl|]. apply run_loop_m. }
+    destruct (run fuel s); auto. destruct R. destruct Rm. auto.
 Qed.
 
 Theorem bsteps_inv ops : forall s,
@@ -363,15 +422,85 @@ Qed.
 
 (* what the invariant says about the observables the property lists *)
 Theorem inv_observables s :
-  Inv s ->
+  Inv s -> Forall fresh_w (s_ws s) ->
   (forall a, a < s_m s -> i_a (get (s_mem s) a) < s_m s /\ i_b (get (s_mem s) a) < s_m s) /\
   Forall (queue_ok (s_m s) (s_procs s)) (s_ws s) /\
   s_cycle s <= s_cycles s /\
   s_living s = Z.of_nat (length (filter alive (s_ws s))).
 Proof.
-  intros (A & B & C & D & E & F & G).
+  intros (A & B & C & D & E & F & G) Hf.
   split; [exact D|]. split; [|split; [assumption|exact F]].
-  eapply Forall_impl; [|exact E]. intros w. apply w_inv_queue_ok.
+  apply Forall_forall. intros w Hw.
+  apply w_inv_queue_ok; [exact (proj1 (Forall_forall _ _) E w Hw)|exact (proj1 (Forall_forall _ _) Hf w Hw)].
+Qed.
+
+(* "fresh" (no Reset happened) is kept by every battle operation *)
+Lemma list_set_fresh l i w : Forall fresh_w l -> fresh_w w -> Forall fresh_w (list_set l i w).
+Proof. apply list_set_Forall. Qed.
+
+Lemma cycle_loop_fresh k : forall i s reps,
+  Forall fresh_w (s_ws s) ->
+  match cycle_loop k i s reps with Panic => True | Ok (s', _, _) => Forall fresh_w (s_ws s') end.
+Proof.
+  induction k as [|k IH]; intros i s reps Hf; cbn [cycle_loop]; [assumption|].
+  destruct (nth_error (s_ws s) i) as [w|]; [|assumption].
+  destruct (w_state w); try (apply IH; assumption).
+  destruct (w_pq w) as [q|]; [|exact I].
+  destruct (rq_pop q) as [[pc q1]|].
+  2:{ apply IH. cbn [s_ws set_w with_ws]. apply list_set_fresh; [assumption|]. unfold fresh_w. cbn. discriminate. }
+  destruct (s_m s <=? pc); [exact I|].
+  destruct (exec _ _ _ _ _ _) as [[c' pushes] ereps].
+  destruct (q_len _ =? 0).
+  - match goal with |- context [if ?b then _ else _] => destruct b end.
+    + cbn [s_ws set_w with_ws with_mem with_living]. apply list_set_fresh; [assumption|]. unfold fresh_w. cbn. discriminate.
+    + apply IH. cbn [s_ws set_w with_ws with_mem with_living]. apply list_set_fresh; [assumption|]. unfold fresh_w. cbn. discriminate.
+  - apply IH. cbn [s_ws set_w with_ws with_mem]. apply list_set_fresh; [assumption|]. unfold fresh_w. cbn. discriminate.
+Qed.
+
+Lemma run_cycle_fresh s :
+  Forall fresh_w (s_ws s) ->
+  match run_cycle s with Panic => True | Ok (s', _, _) => Forall fresh_w (s_ws s') end.
+Proof.
+  intros Hf. unfold run_cycle. destruct (_ || _)%bool; [assumption|]. destruct (_ && _)%bool; [assumption|].
+  pose proof (cycle_loop_fresh (length (s_ws s)) 0 s [mkR CycleStart (Z.of_N (s_cycle s)) 0 0] Hf) as L.
+  destruct (cycle_loop _ _ _ _) as [[[s' [r|]] reps]|]; auto.
+Qed.
+
+Lemma run_loop_fresh fuel : forall s,
+  Forall fresh_w (s_ws s) ->
+  match run_loop fuel s with RunOk s' _ => Forall fresh_w (s_ws s') | _ => True end.
+Proof.
+  induction fuel as [|f IH]; intros s Hf; cbn [run_loop].
+  - destruct (s_cycles s <=? s_cycle s); auto.
+  - destruct (s_cycles s <=? s_cycle s); [assumption|].
+    pose proof (run_cycle_fresh s Hf) as R.
+    destruct (run_cycle s) as [[[s' a] reps]|]; [|exact I].
+    destruct (_ || _)%bool; [assumption|]. apply IH. assumption.
+Qed.
+
+Lemma bstep_fresh s o :
+  Forall fresh_w (s_ws s) ->
+  match bstep s o with Panic => True | Ok s' => Forall fresh_w (s_ws s') end.
+Proof.
+  intros Hf. destruct o as [code start|wi off| |fuel]; cbn [bstep].
+  - cbn [add_warrior s_ws with_ws]. apply Forall_app. split; [assumption|].
+    constructor; [|constructor]. unfold fresh_w. reflexivity.
+  - unfold spawn_warrior. destruct (_ || _)%bool; [assumption|].
+    destruct (windex s wi) as [[i w]|]; [|exact I].
+    destruct (w_state w); try assumption;
+      cbn [s_ws set_w with_ws with_mem with_living]; apply list_set_fresh; try assumption;
+      unfold fresh_w; cbn; discriminate.
+  - pose proof (run_cycle_fresh s Hf) as R. destruct (run_cycle s) as [[[s' r] reps]|]; auto.
+  - unfold run. destruct (s_ws s) eqn:E; [rewrite E; constructor|]. rewrite <- E in *.
+    pose proof (run_loop_fresh fuel s Hf) as R. destruct (run_loop fuel s); auto.
+Qed.
+
+Theorem bsteps_fresh ops : forall s,
+  Forall fresh_w (s_ws s) ->
+  match bsteps s ops with Panic => True | Ok s' => Forall fresh_w (s_ws s') end.
+Proof.
+  induction ops as [|o t IH]; intros s Hf; cbn [bsteps]; [assumption|].
+  pose proof (bstep_fresh s o Hf) as B. destruct (bstep s o); [|exact I]. apply IH. assumption.
 Qed.
 
 (* non-vacuity: an accepted configuration, two hostile warriors, a wrapping spawn *)
